@@ -204,7 +204,7 @@ impl Property for C20 {
     fn budget(&self, tier: Tier) -> Budget {
         match tier {
             Tier::Quick => Budget { cases: 8000, min_len: 8, max_len: 80 },
-            Tier::Thorough => Budget { cases: 300000, min_len: 8, max_len: 100 },
+            Tier::Thorough => Budget { cases: 120000, min_len: 8, max_len: 100 },
         }
     }
 
